@@ -193,6 +193,13 @@ def prove_group(assumptions, goals, seed=0, timeout_ms=None, use_cvc5=True, both
             elif v.status == 'unknown':
                 v = Verdict('unknown', 'z3+cvc5', dt + dt2, detail=v.detail + ' / cvc5: ' + first)
         out.append(v)
+    # a counter-model found with stuck spec applications may be spurious: deepen the definitional case split for refuted goals (as prove does)
+    for i, v in enumerate(out):
+        if v.status == 'refuted':
+            v2 = prove(assumptions, goals[i], seed, timeout_ms, False, False, lemmas, split_depth + 1, deepen=1)
+            if v2.status != 'unknown':
+                v2.seconds += v.seconds
+                out[i] = v2
     return out
 
 
